@@ -272,10 +272,28 @@ def gen_trace(df, rnd, tid, embs):
             arr = getattr(mesh, kind)[d]
             pr = [lat.proj_coord(emb, x, cq, coords) for x in arr]
             ev.append({"k": kind, "d": d + 1, "r": [a for a, _ in pr], "exact": all(b for _, b in pr)})
-        elif k < 0.93 and int(np.prod(m["n"])) <= 400:
+        elif k < 0.88 and int(np.prod(m["n"])) <= 400:
             ev.append({"k": "iterate", "r": [[int(v) for v in i] for i in mesh.indices]})
         else:
-            cr = [rnd.choice([m["c"][d], m["c"][d] * rnd.randrange(1, 4), 4 * rnd.randrange(1, 8), rnd.randrange(3, 30)]) for d in range(nd)]
+            # (fine requests on long edges matter: a tolerance that grows with the number of cells along the edge - seeded
+            # changes C01-1, C01-21 - only lets wrong cell sizes through from a few hundred cells per axis on)
+            cr = [rnd.choice([m["c"][d], m["c"][d] * rnd.randrange(1, 4), 4 * rnd.randrange(1, 8), rnd.randrange(3, 30), rnd.randrange(1, 4)]) for d in range(nd)]
+            try:
+                m2 = df.Mesh(region=lat.region_of(df, m, emb, dims=names), cell=[emb.length(v) for v in cr])
+                ev.append({"k": "by_cell", "cr": cr, "ok": True, "r": [int(v) for v in m2.n]})
+            except Exception:
+                ev.append({"k": "by_cell", "cr": cr, "ok": False, "r": []})
+    # one deliberate fine request per mesh with a long edge: several hundred cells along that edge, once commensurate and once not
+    long = [d for d in range(nd) if m["c"][d] * m["n"][d] >= 400]
+    if long:
+        d = rnd.choice(long)
+        edge = m["c"][d] * m["n"][d]
+        for want_ok in (True, False):
+            cands = [k for k in (1, 2, 3, 5, 7, 9, 11) if (edge % k == 0) == want_ok and edge // k >= 100]
+            if not cands:
+                continue
+            cr = list(m["c"])
+            cr[d] = rnd.choice(cands)
             try:
                 m2 = df.Mesh(region=lat.region_of(df, m, emb, dims=names), cell=[emb.length(v) for v in cr])
                 ev.append({"k": "by_cell", "cr": cr, "ok": True, "r": [int(v) for v in m2.n]})
